@@ -1,4 +1,15 @@
-/- dsmodel_ebpps: model driver stub (filled in when the family is built). -/
-def main (_args : List String) : IO UInt32 := do
-  IO.eprintln "dsmodel_ebpps: not built yet"
-  return 2
+/- dsmodel_ebpps: `ebpps` = EBPPS sketch histories (C18), Float instance of the generic model. -/
+import DSModel.Ebpps.Driver
+import DSModel.DriverLoop
+import DSGen.Ebpps
+open DS
+
+def ebppsVariant : Ebpps.Variant :=
+  { geDraw := DSGen.ebpps_geDraw, mergeSetsWtMax := DSGen.ebpps_mergeSetsWtMax,
+    mergeEmptyShrinks := DSGen.ebpps_mergeEmptyShrinks,
+    clampTheta := DSGen.ebpps_clampTheta, vanishFix := DSGen.ebpps_vanishFix, maxK := DSGen.ebpps_MAX_K }
+
+def main (args : List String) : IO UInt32 := do
+  match args with
+  | ["ebpps"] => runDriver ([] : Ebpps.Objs) (Ebpps.stepLine ebppsVariant)
+  | _ => IO.eprintln "usage: dsmodel_ebpps ebpps"; return 2
